@@ -443,6 +443,20 @@ Fixpoint vslots_dropped (fuel : nat) (el : node) {struct fuel} : bool :=
       end
   end.
 
+(* arrays the lowering itself builds around the children: the body of a generated slot function and
+   the children argument of a vnode call.  They are not occurrences of a source expression, even
+   when a written array literal happens to look the same (`value={[a]}` beside the child `{a}`) *)
+Definition gen_arrays_arrow (l : list node) : list node :=
+  flat_map (fun n => match n with
+                     | Arrow 0 [] ((Arr _) as a) _ _ _ _ => [a]
+                     | _ => []
+                     end) l.
+Definition gen_arrays_call (l : list node) : list node :=
+  flat_map (fun n => match n with
+                     | Call true _ _ (_ :: _ :: Elem false ((Arr _) as a) :: _) _ => [a]
+                     | _ => []
+                     end) l.
+
 Definition order_fail (el out : node) : list str :=
   let all_leaves := src_leaves 40 el false in
   let exempt : list node :=
@@ -452,22 +466,26 @@ Definition order_fail (el out : node) : list str :=
                                   && negb (existsb (node_eqb (fst p)) exempt)) all_leaves in
   let all_out := subs out in
   let eager_out := eager_subs out in
+  let gen_all := gen_arrays_arrow all_out ++ gen_arrays_call all_out in
+  let gen_eager := gen_arrays_call eager_out in
+  let count_all (e : node) : nat := (count_eq e all_out - count_eq e gen_all)%nat in
+  let count_eager (e : node) : nat := (count_eq e eager_out - count_eq e gen_eager)%nat in
   let want_all (e : node) : nat :=
     fold_right (fun (p : node * nat) (acc : nat) => (count_eq e (subs (fst p)) + acc)%nat) 0%nat leaves in
   let want_eager (e : node) : nat :=
     fold_right (fun (p : node * nat) (acc : nat) =>
                   if Nat.eqb (snd p) 1 then (count_eq e (eager_subs (fst p)) + acc)%nat else acc) 0%nat leaves in
   let is_bad := fun p : node * nat =>
-                        negb (Nat.eqb (count_eq (fst p) all_out) (want_all (fst p)))
-                        || negb (Nat.eqb (count_eq (fst p) eager_out) (want_eager (fst p))) in
+                        negb (Nat.eqb (count_all (fst p)) (want_all (fst p)))
+                        || negb (Nat.eqb (count_eager (fst p)) (want_eager (fst p))) in
   let bad := existsb is_bad leaves in
   let d := fun n : nat => dec_of_N (N.of_nat n) in
   (if bad then
      tag "C11:once-eager-lazy"
      ++ match filter is_bad leaves with
         | p :: _ => [s_ "C11:leaf-" ++ d (length (filter (fun q => negb (is_bad q)) leaves)) ++ s_ "-all-"
-                     ++ d (count_eq (fst p) all_out) ++ s_ "-of-" ++ d (want_all (fst p)) ++ s_ "-eager-"
-                     ++ d (count_eq (fst p) eager_out) ++ s_ "-of-" ++ d (want_eager (fst p))]
+                     ++ d (count_all (fst p)) ++ s_ "-of-" ++ d (want_all (fst p)) ++ s_ "-eager-"
+                     ++ d (count_eager (fst p)) ++ s_ "-of-" ++ d (want_eager (fst p))]
         | [] => []
         end
    else [])
